@@ -64,6 +64,11 @@ def run(tier, rep):
         acc_lines = ['dbd %s %d %d' % (r['config']['name'], r['config']['level'], r['config']['mode'])
                      for r in sorted(accepted, key=lambda r: (r['config']['level'], r['config']['name'], r['config']['mode'])) if 'crashed' not in r]
         deep, dd = dxlib.run_dx('plain', acc_lines, 'c02d', 'B2,C', 'ref', phases=2, deadline=1800)
+    # mode 18 depends on seven nuclear matrix elements given by the caller: a second set (chi'_R = 0) on every accepted mode-18 configuration
+    m18 = ['dbd %s %d 18' % (r['config']['name'], r['config']['level']) for r in accepted if 'crashed' not in r and r['config']['mode'] == 18]
+    res18, d18 = dxlib.run_dx('plain', m18, 'c02n', 'A,B1', 'ref', phases=1, deadline=300, extra=['--nme-set', '1'])
+    for r in res18:
+        r['key'] = r['key'] + ':nme2'
     wcfg = window_cfgs(res)
     if tier == 'quick':
         wcfg = [w for i, w in enumerate(wcfg) if i % 4 == vlib.SEED % 4]
@@ -88,7 +93,7 @@ def run(tier, rep):
             chain.append('%s PRE dbd %s %s %s -1 -1' % (w, t[1], t[2], t[3]))
     res3, d3 = dxlib.run_dx('plain', chain, 'c02c', 'A' if tier == 'quick' else 'A,B1', 'ref', phases=1, deadline=600)
     rep.coverage['reinitialisation_chains'] = len(res3)
-    c01.aggregate(rep, res + deep + res2 + res3, True, ('ref',), 'genbbsub',
+    c01.aggregate(rep, res + deep + res18 + res2 + res3, True, ('ref',), 'genbbsub',
                   'configurations = every (isotope, level 0..17, mode 1..20) the reference GENBBsub accepts (grid of %d requests enumerated, acceptance '
                   'compared on each) plus energy windows on the window-capable modes; per configuration: same initialisation stream on both sides '
                   '(toallevents, deviates consumed and the 4300-bin first-lepton spectrum table compared), then layers %s of the deviate explorer '
@@ -99,7 +104,7 @@ def run(tier, rep):
     rep.coverage['max_table_rel_diff'] = max([r.get('table_rel') or 0 for r in res + res2 if 'crashed' not in r] + [0])
     rep.assumptions += ['F77->C++ transpilation of the reference is faithful (tools/f2cxx.py; REAL evaluated in double)',
                         'CERNLIB stand-ins (GAUSS, DGMLT1/2, DIVDIF, CGAMMA) in ref/cernlib_shim.cc are independent re-implementations',
-                        'mode 18 is driven with one fixed set of seven NMEs on both sides',
+                        'mode 18 is driven with two fixed sets of seven NMEs (chi_R != 0 and chi_R = 0) on both sides',
                         'executions whose model-side decision margin is below tau (10x the measured table noise, >=1e-6) are counted ambiguous, not compared']
 
 
